@@ -136,8 +136,8 @@ func SubscribeAddresses(ctx context.Context, ras []bitcoin.RawAddress,
 			return errors.Wrap(err, "address hashes")
 		}
 
-		for _, hash := range hashes {
-			pds = append(pds, hash[:])
+		for i := range hashes {
+			pds = append(pds, hashes[i][:])
 		}
 	}
 
@@ -153,8 +153,8 @@ func SubscribeAddress(ctx context.Context, ra bitcoin.RawAddress,
 	}
 
 	var pds [][]byte
-	for _, hash := range hashes {
-		pds = append(pds, hash[:])
+	for i := range hashes {
+		pds = append(pds, hashes[i][:])
 	}
 
 	return subscriber.SubscribePushDatas(ctx, pds)
